@@ -64,3 +64,19 @@ pub(crate) use helpers::*;
 #[allow(unused_imports)]
 pub(crate) use helpers_32::*;
 pub(crate) use sanity::SideMetadataSanity;
+
+/// Verification hooks for items private to this module tree.
+#[cfg(feature = "mmtk_verif")]
+pub mod verif_hooks {
+    use super::SideMetadataSpec;
+
+    /// The overlap predicate of the sanity checker (`true` = accepted as disjoint).
+    pub fn no_overlap_contiguous(a: &SideMetadataSpec, b: &SideMetadataSpec) -> bool {
+        super::sanity::verif_verify_no_overlap_contiguous(a, b)
+    }
+
+    /// Size of the metadata address range a contiguous spec covers.
+    pub fn metadata_address_range_size(s: &SideMetadataSpec) -> usize {
+        super::helpers::metadata_address_range_size(s)
+    }
+}
